@@ -86,6 +86,31 @@ def run(chk, tier):
     chk.expect([t for t in ts_tests if t in want_ts] == want_ts and all(" Eq " in t for t in ts_tests), "pc-query", "check_presentation_contexts", "transfer-syntax-tests",
                want_ts + ["(ts == file_ts.uid() in the codec-free query)"], ts_tests)
 
+    # the second query accepts a context whose transfer syntax is the file's OR (both the file's and the context's are codec free)
+    q2 = [H.show(y, 9) for y in H.walk(h["body"]) if H.kind(y) == "bin" and y[2] == "Or" and "is_codec_free" in H.show(y, 9)]
+    ok_q2 = len(q2) == 1 and q2[0].startswith("((ts Eq file_ts.uid()) Or ") and "(file_ts.is_codec_free() And ts.is_codec_free())" in H.show(h["body"], 40) + " ".join(
+        H.show(c, 8) for y in H.walk(h["body"]) if H.kind(y) == "closure" for c in [y[4] if len(y) > 4 else y])
+    chk.expect(ok_q2, "pc-query", "check_presentation_contexts", "same-ts-or-both-codec-free", "ts == file_ts.uid() || (file_ts.is_codec_free() && ts.is_codec_free())", [q[:120] for q in q2])
+    # command and data set share one PDU only when both fit with room for the three headers: nbytes = len(command) + len(data set),
+    # tested `<` against the acceptor's maximum minus a margin of at least 18 bytes -- in both store loops
+    for mod in ("store_sync", "store_async"):
+        hs_ = fx.find_hir("dicom_storescu", lambda p, mod=mod: p.endswith(f"{mod}::send_file"), kind="bin")
+        if len(hs_) != 1:
+            raise facts.MissingAnchor(f"storescu {mod}::send_file")
+        hs_ = hs_[0]
+        nb = [x for x in H.walk(hs_["body"]) if H.kind(x) == "slet" and H.pat_bindings(x[2]) == ["nbytes"]]
+        t_nb = H.show(nb[0][3], 5) if len(nb) == 1 else None
+        gate_ = [x for x in H.walk(hs_["body"]) if H.kind(x) == "if" and "nbytes" in H.show(x[2], 6) and "acceptor_max_pdu_length" in H.show(x[2], 8)]
+        margin = None
+        if len(gate_) == 1:
+            for y in H.walk(gate_[0][2]):
+                if H.kind(y) == "mcall" and y[3] in ("saturating_sub", "checked_sub", "wrapping_sub"):
+                    margin = H.int_lit(y[5][0])
+        ok_ = t_nb in ("(cmd_data.len() Add object_data.len())", "(object_data.len() Add cmd_data.len())") and len(gate_) == 1 \
+            and sorted(y[2] for y in H.walk(gate_[0][2]) if H.kind(y) == "bin") == ["Lt"] and margin is not None and margin >= 18
+        chk.expect(ok_, "send-plumbing", mod, "single-pdu-only-when-both-fit", "nbytes = cmd + data; if nbytes < max.saturating_sub(>=18) { one PDU } else { command, then send_pdata }",
+                   {"nbytes": t_nb, "gate": [H.show(x[2], 7) for x in gate_], "margin": margin}, loc=C.fn_loc(hs_))
+
     # ---------- into_ts
     chk.rule("into-ts", "into_ts transcodes iff the selected transfer syntax differs from the file's")
     its = fx.find_hir("dicom_storescu", lambda p: p.endswith("::into_ts"), kind="bin")
